@@ -72,10 +72,22 @@ func c05Observe(p *profile.Profile, o c04Opts, form string) (obs Term, order Ter
 			g, orig, dn, de := report.VerifC04Trimmed(rpt)
 			return dumpTrimmed(g, orig, dn, de)
 		case "top":
-			txt := c04Generate(rpt)
+			txt, e := c04Text(p, o)
+			if e != nil {
+				return e
+			}
 			return withLegend(parseTop(txt), txt)
+		case "webtop":
+			txt, e := c04Text(p, o)
+			if e != nil {
+				return e
+			}
+			return c04WebTop(txt)
 		case "tree":
-			txt := c04Generate(rpt)
+			txt, e := c04Text(p, o)
+			if e != nil {
+				return e
+			}
 			return withLegend(parseTree(txt), txt)
 		case "dotgraph":
 			g, orig, dn, de := report.VerifC04Trimmed(rpt)
@@ -97,7 +109,10 @@ func c05Observe(p *profile.Profile, o c04Opts, form string) (obs Term, order Ter
 				ord = append(ord, c04DumpInfo(n.Info))
 			}
 			order = L(ord...)
-			txt := c04Generate(rpt)
+			txt, e := c04Text(p, o)
+			if e != nil {
+				return e
+			}
 			return withLegend(parseDot(txt), txt)
 		}
 		panic("unknown form " + form)
@@ -163,14 +178,20 @@ func runC05(c *Ctx) {
 		if err != nil {
 			return
 		}
+		via := o.Via
+		if via == "" {
+			via = "cli"
+		}
 		obs, order := c05Observe(p, o, form)
 		in := L(DumpProfile(p), o.term(), S(form), fmtTable(p, o), order)
 		trims := o.NodeCount > 0 || o.NodeCutoff > 0 || o.EdgeCutoff > 0
 		c.Case(gen, in, obs, trims && len(p.Sample) > 1, "form:"+form, fmt.Sprintf("nodecount>0:%v", o.NodeCount > 0),
 			fmt.Sprintf("nodecutoff>0:%v", o.NodeCutoff > 0), fmt.Sprintf("edgecutoff>0:%v", o.EdgeCutoff > 0),
-			fmt.Sprintf("cumsort:%v", o.CumSort), "gran:"+o.Gran)
+			fmt.Sprintf("cumsort:%v", o.CumSort), "via:"+via, fmt.Sprintf("calltree:%v", o.CallTree), "gran:"+o.Gran)
 	}
 	forceGran := "*"
+	var forceOpts func(o *c04Opts) // applied to the base options of a sweep
+	allFracs := false              // sweep every node fraction instead of a random one
 	sweep := func(gen string, p *profile.Profile, textable bool, per int) {
 		base := c04Opts{Format: "text"}
 		base.Gran = PickS(r, c04Grans)
@@ -183,11 +204,18 @@ func runC05(c *Ctx) {
 		if n := len(p.SampleType); n > 0 && r.P(1, 2) {
 			base.SampleIndex = fmt.Sprint(r.Intn(n))
 		}
+		if forceOpts != nil {
+			forceOpts(&base)
+		}
 		g, total, err := c05Cutoffs(p, &base)
 		if err != nil {
 			return
 		}
 		counts, nfs, efs := c05Settings(r, g, total)
+		counts = append(counts, -1) // not given: the command's default (none for top, 80 for tree/dot)
+		if allFracs {
+			per = len(nfs)
+		}
 		for k := 0; k < per; k++ {
 			f := forms[r.Intn(len(forms))]
 			if f.text && !textable {
@@ -197,7 +225,7 @@ func runC05(c *Ctx) {
 			o.Format = f.format
 			o.CumSort = r.P(1, 2)
 			o.NodeCount = counts[r.Intn(len(counts))]
-			if o.NodeCount < 0 {
+			if o.NodeCount < -1 {
 				o.NodeCount = 0
 			}
 			o.NodeFrac = nfs[r.Intn(len(nfs))]
@@ -208,7 +236,39 @@ func runC05(c *Ctx) {
 			if r.P(1, 2) {
 				o.EdgeFrac = 0
 			}
-			emit(gen, p, o, f.form)
+			if allFracs {
+				f = forms[[]int{1, 2, 3}[k%3]] // tgraph(tree), top, tree
+				o.Format, o.NodeFrac, o.EdgeFrac, o.NodeCount = f.format, nfs[k], 0, 0
+			}
+			form := f.form
+			// call_tree is honoured by dot and callgrind only: text and tree reports must ignore it
+			// (call trees with dot are trimmed in place by TrimTree, which is not modelled)
+			if f.format != "dot" {
+				o.CallTree = base.CallTree || r.P(1, 3)
+				if r.P(1, 12) { // trim=false switches every limit off
+					o.NoTrim = true
+				}
+			} else {
+				o.CallTree = false
+			}
+			// the text forms travel through a real entry point: command line, session, web page
+			if f.text && f.format != "dot" {
+				o.Via = PickS(r, []string{"cli", "cli", "session", "web"})
+				switch o.Via {
+				case "session":
+					o.Pre = []string{"nodefraction=0.9", "sample_index=nosuch_zz", "tree ((", "top 1 >decoy"}
+					if r.Bool() && o.NodeCount >= 0 { // the count as the command's own argument
+						o.HasArg, o.Arg, o.NodeCount = true, o.NodeCount, 1+r.Intn(3)
+					}
+				case "web":
+					if f.format == "text" {
+						form = "webtop" // the /top page always asks for 500 entries
+					} else {
+						o.Via = "cli"
+					}
+				}
+			}
+			emit(gen, p, o, form)
 		}
 	}
 	// chains that lose a leaf, a root, the middle, everything
@@ -228,7 +288,48 @@ func runC05(c *Ctx) {
 		}
 	}
 	forceGran = "*"
-	nprof := c.Budget(80, 1500)
+	// text and tree reports with call_tree set, every cutoff of every chain: a removed leaf must not
+	// hand its flat to its caller (deterministic)
+	allFracs = true
+	forceOpts = func(o *c04Opts) { o.CallTree = true; o.NoInlines, o.Mean, o.DropNeg = false, false, false }
+	for i, p := range c05Chains() {
+		if i < 4 || c.Tier == "thorough" {
+			forceGran = []string{"", "lines", "functions", "files"}[i%4]
+			sweep("calltree-text", p.Copy(), true, 0)
+		}
+	}
+	allFracs, forceOpts, forceGran = false, nil, "*"
+	// source_path / trim_path: the report cleans file names on EVERY graph build; the kept set of the
+	// first build must still match in the rebuilds (deterministic part + random settings)
+	for ci, cfg := range c05PathConfigs {
+		forceOpts = func(o *c04Opts) { o.SourcePath, o.TrimPath = cfg[0], cfg[1]; o.NoInlines = false }
+		for gi, gr := range []string{"lines", "files", "filefunctions", "addresses"} {
+			forceGran = gr
+			allFracs = gi == ci%4
+			sweep("paths", c05PathProfile(false).Copy(), true, c.Budget(4, 60))
+		}
+	}
+	allFracs = false
+	// the known finding F40 (clean-up not idempotent when the checkout's base name occurs twice)
+	forceOpts = func(o *c04Opts) { o.SourcePath, o.TrimPath = "/home/me/proj", ""; o.NoInlines, o.Mean, o.DropNeg = false, false, false }
+	forceGran = "lines"
+	{
+		p := c05PathProfile(true).Copy()
+		o := c04Opts{Format: "text", Gran: "lines", SourcePath: "/home/me/proj", NodeFrac: 0.05}
+		emit("finding-F40", p, o, "tgraph")
+		emit("finding-F40", p, o, "top")
+	}
+	forceOpts, forceGran = nil, "*"
+	// an interactive top/text whose count was not given shows 10 entries (13-entry profile; deterministic)
+	{
+		p := c04Big(6).Copy()
+		emit("session-top10", p, c04Opts{Format: "text", NodeCount: -1, Via: "session"}, "top")
+		emit("session-top10", p, c04Opts{Format: "text", NodeCount: -1, Via: "session", CmdText: true, CumSort: true}, "top")
+		emit("session-top10", p, c04Opts{Format: "text", NodeCount: 3, Via: "session", HasArg: true, Arg: -1}, "top")
+		emit("session-top10", p, c04Opts{Format: "tree", NodeCount: -1, Via: "session"}, "tree")
+		emit("session-top10", p, c04Opts{Format: "text", NodeCount: -1}, "top")
+	}
+	nprof := c.Budget(60, 1500)
 	for k := 0; k < nprof; k++ {
 		kn := c04Knobs(r)
 		kn.MaxSamples = 6
@@ -289,6 +390,48 @@ func c05LineLess() []*profile.Profile {
 		}
 	}
 	return out
+}
+
+// c05PathConfigs: (source_path, trim_path)
+var c05PathConfigs = [][2]string{
+	{"/home/me/proj", "/build"},
+	{"/home/me/proj", ""},
+	{"", "/build:/proc/self/cwd/w"},
+	{"/x/none:/home/me/proj", "/nowhere"},
+}
+
+// c05PathProfile: file names under a build root, a Bazel-style /proc/self/cwd name, a relative one;
+// with double: one file whose path contains the checkout's base name twice.
+func c05PathProfile(double bool) *profile.Profile {
+	p := &profile.Profile{SampleType: []*profile.ValueType{{Type: "cpu", Unit: "count"}}}
+	m := &profile.Mapping{ID: 1, Start: 0x1000, Limit: 0x9000, File: "bin/prog", HasFunctions: true}
+	p.Mapping = []*profile.Mapping{m}
+	loc := func(name, file string) *profile.Location {
+		id := uint64(len(p.Function) + 1)
+		f := &profile.Function{ID: id, Name: name, SystemName: name, Filename: file}
+		p.Function = append(p.Function, f)
+		l := &profile.Location{ID: id, Mapping: m, Address: 0x1000 + 16*id, Line: []profile.Line{{Function: f, Line: int64(10 * id)}}}
+		p.Location = append(p.Location, l)
+		return l
+	}
+	lmain := loc("main", "/build/w/proj/main.go")
+	la := loc("a", "/build/w/proj/a/a.go")
+	ltiny := loc("tiny", "/build/w/proj/t/tiny.go")
+	lb := loc("b", "/proc/self/cwd/w/proj/b/b.go")
+	lc := loc("c", "other/c.go")
+	add := func(v int64, st ...*profile.Location) {
+		p.Sample = append(p.Sample, &profile.Sample{Value: []int64{v}, Location: st})
+	}
+	add(100, la, lmain)
+	add(1, ltiny, lmain)
+	add(50, lmain)
+	add(30, lb, la, lmain)
+	add(4, lc, lb, lmain)
+	if double {
+		ld := loc("d", "/build/proj/w/proj/d/d.go")
+		add(70, ld, lmain)
+	}
+	return p
 }
 
 // c05Chains: linear chains and diamonds whose weights put every cutoff between distinct cums
